@@ -777,27 +777,36 @@ def explicit_panics(ctx, rid, crates, G):
                     definite = is_param
                     if reach and is_param:
                         # a helper sees only what its callers pass: the variants that can arrive are those left over at each call site
-                        arriving, complete = set(), True
-                        n_calls = 0
-                        for c2 in crates:
-                            for name2, f2 in c2.hir.items():
-                                if f2.get("body") is None or "::tests::" in name2:
-                                    continue
-                                for call, pth in sites_with_path(f2["body"], lambda z: H.kind(z) in ("Call", "MethodCall") and z.get("def") == fname):
-                                    n_calls += 1
-                                    args_ = ([call["recv"]] if H.kind(call) == "MethodCall" else []) + list(call.get("args", []))
-                                    arg = args_[b[1]] if b[1] < len(args_) else None
-                                    al = H.path_local(arg) if arg is not None else None
-                                    if al is None:
-                                        complete = False
+                        def arriving_at(callee, pidx, depth):
+                            """(variants that can be passed for parameter pidx of callee, every call site understood, number of call sites)"""
+                            arr, comp, nc = set(), True, 0
+                            for c2 in crates:
+                                for name2, f2 in c2.hir.items():
+                                    if f2.get("body") is None or "::tests::" in name2:
                                         continue
-                                    R2 = Resolver(c2, G, f2)
-                                    R2.all_crates, R2.fn_name, R2.pratt, R2.site_path = crates, name2, pratt, pth
-                                    poss2, _ = R2.enum_possible(al, ety, pth)
-                                    if poss2 is None:
-                                        complete = False
-                                    else:
-                                        arriving |= poss2
+                                    for call, pth in sites_with_path(f2["body"], lambda z: H.kind(z) in ("Call", "MethodCall") and z.get("def") == callee):
+                                        nc += 1
+                                        args_ = ([call["recv"]] if H.kind(call) == "MethodCall" else []) + list(call.get("args", []))
+                                        arg = args_[pidx] if pidx < len(args_) else None
+                                        al = H.path_local(arg) if arg is not None else None
+                                        if al is None:
+                                            comp = False
+                                            continue
+                                        R2 = Resolver(c2, G, f2)
+                                        R2.all_crates, R2.fn_name, R2.pratt, R2.site_path = crates, name2, pratt, pth
+                                        poss2, _ = R2.enum_possible(al, ety, pth)
+                                        if poss2 is None:
+                                            comp = False
+                                            continue
+                                        # the caller passes its own parameter on: what can arrive there is decided at *its* callers
+                                        b2 = R2.binding(al, pth)
+                                        if b2 is not None and b2[0] == "param" and depth < 2 and name2 != callee:
+                                            arr2, comp2, nc2 = arriving_at(name2, b2[1], depth + 1)
+                                            if nc2 and comp2:
+                                                poss2 = poss2 & arr2
+                                        arr |= poss2
+                            return arr, comp, nc
+                        arriving, complete, n_calls = arriving_at(fname, b[1], 0)
                         if n_calls and complete:
                             reach = sorted(set(reach) & arriving)
                         elif n_calls:
